@@ -454,6 +454,20 @@ class Session:
         if other.communication_state.current.name == "COMMUNICATING":
             self.violation(f"peer-still-COMMUNICATING-after-{who}-was-disabled")
             return
+        # ... and tell its application so: both handlers' own query says "not communicating" while the link is down
+        for name, hd in (("host", self.host), ("equipment", self.eq)):
+            self.ctx.count("oracle.waitfor_communicating_while_link_down")
+            try:
+                answer = hd.waitfor_communicating(0.05)
+            except Exception as exc:
+                self.violation(f"waitfor_communicating-raises:{type(exc).__name__}", error=repr(exc)[:200])
+                return
+            if answer and hd.communication_state.current.name != "COMMUNICATING":
+                time.sleep(0.3)
+                if hd.waitfor_communicating(0.05) and hd.communication_state.current.name != "COMMUNICATING":
+                    self.violation(f"waitfor_communicating-true-while-not-communicating:{name}:after-{who}-was-disabled",
+                                   state=hd.communication_state.current.name)
+                    return
         # virtual time passes while the link is down: the other side's establish-communications timers may expire
         for _ in range(self.ctx.rng.choice([0, 1, 2, 3])):
             timers = vtime.pending(owner=other.communication_state)
